@@ -34,7 +34,8 @@ def run(rep):
         raise ToolError("Gen_Session failed: %s" % (g.violated or g.error))
     rep.add_tlc("Gen_Session", g)
     texts_abs = g.info[0]["texts"]
-    # variable names are case-insensitive: every text exists in three letter-case renderings, calls rotate through them
+    # variable names are case-insensitive: every text exists in three letter-case renderings; in two histories out of three the calls
+    # rotate through them, in the third every call uses the same rendering (the very same string set twice is a history of its own)
     texts3 = [[[render.render_line(l, CFG, case, salt="%d.%d" % (ti, i)) for i, l in enumerate(t)] for ti, t in enumerate(texts_abs)] for case in ("lower", "title", "upper")]
     texts = texts3[0]
     gen = sorted(g.cases, key=lambda c: repr(c["hist"]))
@@ -50,9 +51,9 @@ def run(rep):
         for h in c["hist"]:
             calls_seen.add(h["call"])
             if h["call"] == "execute":
-                steps.append({"op": "execute", "lang": "en", "text": ("\r\n" if gi % 4 == 0 else "\n").join(texts3[(gi + len(steps)) % 3][h["t"] - 1])})
+                steps.append({"op": "execute", "lang": "en", "text": ("\r\n" if gi % 4 == 0 else "\n").join(texts3[(gi + (len(steps) if gi % 3 else 0)) % 3][h["t"] - 1])})
             elif h["call"] == "set_text":
-                steps.append({"op": "set_text", "s": h["s"], "text": "\n".join(texts3[(gi + len(steps)) % 3][h["t"] - 1])})
+                steps.append({"op": "set_text", "s": h["s"], "text": "\n".join(texts3[(gi + (len(steps) if gi % 3 else 0)) % 3][h["t"] - 1])})
             else:
                 steps.append({"op": "execute_session", "s": h["s"]})
         cases.append({"id": "h%d" % gi, "cfg": CFG, "steps": steps})
@@ -175,10 +176,18 @@ def random_histories(rep, nhist):
             steps.append({"op": "set_language", "s": s, "lang": "en"})
             evs.append({"ev": "set_language", "s": s, "lang": "en"})
         pending = {}
+        last_text = {}
         for k in range(200):
             x = rng.random()
             s = rng.choice(sessions)
-            if x < 0.45 or (x < 0.75 and not has_text[s]):
+            if s in last_text and not has_text[s] and rng.random() < 0.12:
+                # the very same text once more on the same session: every line is evaluated again, from the first one
+                lines, texts = last_text[s]
+                steps.append({"op": "set_text", "s": s, "text": "\n".join(texts)})
+                evs.append({"ev": "set_text", "s": s, "lines": lines, "_texts": texts})
+                has_text[s] = True
+                pending[s] = kind[s]
+            elif x < 0.45 or (x < 0.75 and not has_text[s]):
                 # set_text with a random text of 1..4 lines; binding kinds are tracked per session
                 n = rng.randint(1, 4)
                 lines = []
@@ -200,6 +209,7 @@ def random_histories(rep, nhist):
                 evs.append({"ev": "set_text", "s": s, "lines": lines, "_texts": texts})
                 has_text[s] = True
                 pending[s] = kd
+                last_text[s] = (lines, texts)
             elif x < 0.75:
                 steps.append({"op": "execute_session", "s": s})
                 evs.append({"ev": "execute_session", "s": s})
